@@ -30,11 +30,15 @@ Proof.
   assert (Hmax : ibc_MAX signed = hi signed) by (destruct signed; [exact max_signed | exact max_unsigned]).
   rewrite Hmin, Hmax.
   assert (Hlh : lo signed < hi signed) by (destruct signed; unfold lo, hi; lia).
-  destruct (Z.ltb v (lo signed)) eqn:E1; destruct (Z.ltb (hi signed) v) eqn:E2; cbn [orb].
-  - lia.
-  - right; left. split; [lia | eexists; reflexivity].
-  - right; right. split; [lia | eexists; reflexivity].
-  - left. split; [lia | reflexivity].
+  (* whatever comparison shape the source uses for the range test *)
+  repeat match goal with
+         | |- context [Z.ltb ?a ?b] => destruct (Z.ltb_spec a b)
+         | |- context [Z.leb ?a ?b] => destruct (Z.leb_spec a b)
+         end; cbn [orb andb negb];
+    first [ exfalso; lia
+          | left; split; [lia | reflexivity]
+          | right; left; split; [lia | eexists; reflexivity]
+          | right; right; split; [lia | eexists; reflexivity] ].
 Qed.
 
 Lemma ibc_ok_iff : forall v signed, int_bounds_check v signed = Ok tt <-> lo signed <= v <= hi signed.
